@@ -32,7 +32,7 @@ REQUIRED_THEOREMS = ['CfVerif.C16.' + t for t in (
     'residual_zero_iff_aligned', 'deflip_correct', 'align_exact_of_zero_residual', 'align_residual_bound', 'x_samples_on_positive_axis',
     'aligned_unique', 'align_recovers_true_alignment',
     'scale_uniform', 'scale_fixed_point_exact', 'scale_diagonals_exact', 'intersection_on_plane_and_ray',
-    'scale_inputs_unmodified', 'scale_heap_refines_value', 'gen_pose_scale_rebinds', 'gen_aligner_pure', 'gen_diag_pairs_are_diagonals', 'gen_no_shared_state', 'align_calls_do_not_interfere')]
+    'scale_inputs_unmodified', 'scale_heap_refines_value', 'gen_pose_scale_rebinds', 'gen_aligner_pure', 'gen_diag_pairs_are_diagonals', 'gen_no_shared_state', 'align_calls_do_not_interfere', 'gen_pose_storage')]
 TRUSTED = ['harness/corr/c16.py extractor + correspondence',
            'real numbers vs IEEE binary64: the theorems are about the model over R; the same definitions run over Float agree with numpy to 1e-11',
            'scipy Rotation.from_rotvec(v).as_matrix() = Rodrigues rotation (model: rotVecToMat; scipy uses a Taylor series of sin(t/2)/t below 1e-3 rad)',
@@ -349,6 +349,26 @@ def extract(ctx):
     sc = X.find(P, 'scale')
     stmts = [n for n in sc.body if not (isinstance(n, ast.Expr) and isinstance(n.value, ast.Constant))]   # drop the docstring
     g.strings('poseScale', [ast.unparse(n) for n in stmts])
+    # how Pose stores its arrays: conversion call, source and dtype argument of every attribute assignment in __init__
+    conv = []
+    for t, v in _assigns(X.find(P, '__init__')):
+        if isinstance(v, ast.Call):
+            dt = [ast.unparse(k.value) for k in v.keywords if k.arg == 'dtype'] + [ast.unparse(a) for a in v.args[1:2]]
+            conv.append('%s <- %s(%s) dtype=%s' % (t, ast.unparse(v.func), ast.unparse(v.args[0]) if v.args else '', dt[0] if dt else 'as-given'))
+        else:
+            conv.append('%s <- %s (no conversion)' % (t, ast.unparse(v)))
+    g.strings('poseStorage', conv)
+    # the one statement of scale: which kind of target it writes (attribute rebind / slice or element write / augmented), and what
+    X.expect(len(stmts) == 1, 'Pose.scale: expected exactly one statement, found %d' % len(stmts))
+    st0 = stmts[0]
+    if isinstance(st0, ast.Assign) and len(st0.targets) == 1:
+        tg = st0.targets[0]
+        kind = 'rebind-attribute' if isinstance(tg, ast.Attribute) else ('write-through-subscript' if isinstance(tg, ast.Subscript) else 'other')
+        g.strings('poseScaleKind', [kind, ast.unparse(tg), ast.unparse(st0.value)])
+    elif isinstance(st0, ast.AugAssign):
+        g.strings('poseScaleKind', ['augmented-in-place', ast.unparse(st0.target), ast.unparse(st0.value)])
+    else:
+        g.strings('poseScaleKind', ['other', ast.unparse(st0), ''])
     g.strings('poseStores', sorted(set('%s: %s' % (f.name, s) for f in P.body if isinstance(f, ast.FunctionDef) and f.name != '__init__' for s in _stores(f))))
 
     # ---- deck sensor layout: which corner (sign of x, sign of y) each sensor index is
@@ -562,6 +582,92 @@ def rand_pose(rng, Pose, maxdeg=180.0, r=3.0, zmin=None):
     return Pose.from_rot_vec(R_vec=rand_rotvec(rng, maxdeg), t_vec=t)
 
 
+VALUE_CLASSES = ('float64', 'int-tuple', 'int-list', 'int64-array', 'int32-array', 'float32-array', 'whole-float', 'mixed')
+
+
+def in_class(rng, np, v, cls, nonzero=False):
+    """the 3-vector `v` re-expressed in a value/dtype class a caller may legitimately hand to Pose / align / scale_*:
+    whole numbers as python ints (tuple / list / int ndarray), whole-number floats, float32 ndarray, mixed scalars.
+    Integer classes round the value (the VALUE then is the rounded one; expectations are computed from what is returned)."""
+    w = [int(round(float(c))) for c in v]
+    if nonzero and all(c == 0 for c in w):
+        w[rng.randrange(3)] = rng.choice([-2, -1, 1, 2, 3])
+    if cls == 'int-tuple':
+        return tuple(w)
+    if cls == 'int-list':
+        return list(w)
+    if cls == 'int64-array':
+        return np.array(w, dtype=np.int64)
+    if cls == 'int32-array':
+        return np.array(w, dtype=np.int32)
+    if cls == 'whole-float':
+        return tuple(float(c) for c in w)
+    if cls == 'float32-array':
+        return np.array([float(c) for c in v], dtype=np.float32)
+    if cls == 'mixed':
+        return (w[0], float(v[1]), np.float32(v[2]))
+    return np.array([float(c) for c in v], dtype=np.float64)
+
+
+def rand_int_rotation(rng):
+    """a proper rotation with integer entries (signed permutation matrix of determinant +1), as nested python int lists"""
+    while True:
+        perm = rng.sample(range(3), 3)
+        sg = [rng.choice([1, -1]) for _ in range(3)]
+        m = [[sg[i] if perm[i] == j else 0 for j in range(3)] for i in range(3)]
+        det = (m[0][0] * (m[1][1] * m[2][2] - m[1][2] * m[2][1]) - m[0][1] * (m[1][0] * m[2][2] - m[1][2] * m[2][0])
+               + m[0][2] * (m[1][0] * m[2][1] - m[1][1] * m[2][0]))
+        if det == 1:
+            return m
+
+
+def rand_pose_in_class(rng, np, Pose, cls=None, r=3.0, zmin=None):
+    """a Pose built through the public constructor from data of the given value class (translation) and a rotation that is
+    float64, float32 or integer-valued"""
+    cls = cls or rng.choice(VALUE_CLASSES)
+    base = rand_pose(rng, Pose, r=r, zmin=zmin)
+    rk = rng.choice(['float64', 'float64', 'float32', 'int'])
+    R = base.rot_matrix if rk == 'float64' else (base.rot_matrix.astype(np.float32) if rk == 'float32' else rand_int_rotation(rng))
+    return Pose(R_matrix=R, t_vec=in_class(rng, np, base.translation, cls, nonzero=True)), cls, rk
+
+
+def f64(np, a):
+    return np.asarray(a, dtype=np.float64)
+
+
+def scenario_in_class(rng, Pose, np):
+    """reference samples and base stations whose coordinates are whole numbers handed over as ints / int arrays / whole floats
+    (misalignment = a whole-number offset, <= 3 m, no rotation), or a general <= 30 deg scenario handed over as float32 arrays"""
+    if rng.random() < 0.3:
+        sc = scenario(rng, Pose, np, min_off=0.3)
+        c32 = lambda v: np.array(v, dtype=np.float32)
+        sc['origin'], sc['xs'], sc['pl'] = c32(sc['origin']), [c32(x) for x in sc['xs']], [c32(x) for x in sc['pl']]
+        sc['bs'] = {k: Pose(R_matrix=p.rot_matrix, t_vec=c32(p.translation)) for k, p in sc['bs'].items()}
+        sc['noise'] = 1e-6          # float32 rounding of the samples: consistent only to ~1e-7 relative
+        sc['value_class'] = 'float32-array'
+        return sc
+    cls = rng.choice(['int-tuple', 'int-list', 'int64-array', 'int32-array', 'whole-float'])
+    while True:
+        off = [rng.randrange(-2, 3) for _ in range(3)]
+        if 0 < sum(c * c for c in off) <= 9:
+            break
+    mk = lambda v: in_class(rng, np, v, cls)
+    add = lambda v: [a + b for a, b in zip(v, off)]
+    xs_w = [[rng.randrange(1, 4), 0, 0] for _ in range(rng.choice([1, 2]))]
+    pl_w = [[rng.randrange(-3, 4), rng.choice([-3, -2, -1, 1, 2, 3]), 0] for _ in range(rng.choice([1, 2, 4]))]
+    bs_w, bs = {}, {}
+    for i in rng.sample(range(16), rng.choice([1, 2, 3])):
+        pos = [rng.randrange(-4, 5), rng.randrange(-4, 5), rng.randrange(1, 4)]
+        R = rand_int_rotation(rng) if rng.random() < 0.5 else rand_pose(rng, Pose).rot_matrix
+        bs_w[i] = Pose(R_matrix=R, t_vec=[float(c) for c in pos])
+        bs[i] = Pose(R_matrix=R, t_vec=mk(add(pos)))
+    origin = mk(off)
+    return {'M': Pose(t_vec=[float(c) for c in off]), 'angle_deg': 0.0, 'trans': math.sqrt(sum(c * c for c in off)), 'origin': origin,
+            'xs': [mk(add(p)) for p in xs_w], 'pl': [mk(add(p)) for p in pl_w], 'bs': bs, 'bs_w': bs_w,
+            'xs_w': [np.array(p, dtype=float) for p in xs_w], 'pl_w': [np.array(p, dtype=float) for p in pl_w], 'noise': 0.0,
+            'max_off': max(abs(p[1]) for p in pl_w), 'value_class': cls}
+
+
 def scenario(rng, Pose, np, maxdeg=30.0, maxt=3.0, noise=0.0, min_off=0.0):
     """a solved system misaligned by a rigid motion M (world -> current frame): reference samples and base stations"""
     ang = math.radians(rng.uniform(0, maxdeg)) if rng.random() > 0.1 else math.radians(maxdeg) * rng.choice([0.0, 0.5, 0.999])
@@ -677,11 +783,12 @@ def real_isect(cart, bs, cf):
         return exc_line(e)
 
 
-def real_heapscale(arrs, objs, bs, cf, f):
+def real_heapscale(arrs, objs, bs, cf, f, dtypes=None):
     """arrs: list of None (matrix) | [x,y,z]; objs: list of (r, t) array indices; bs: [(id, obj)], cf: [obj].  Builds Pose
     objects that share ndarray objects exactly as described, runs the real _scale_system and reads back the object graph."""
     np, A, S, Pose, _, _ = _mods()
-    arrays = [np.identity(3) if a is None else np.array(a, dtype=float) for a in arrs]
+    dtypes = dtypes or [None] * len(arrs)
+    arrays = [np.identity(3) if a is None else np.array(a, dtype=(dt or 'float64')) for a, dt in zip(arrs, dtypes)]
     before = [a.copy() for a in arrays]
     pobjs = []
     for (r, t) in objs:
@@ -742,6 +849,10 @@ def gen_cases(ctx):
         origin = rand_vec(rng)
         xs = [rand_vec(rng) for _ in range(rng.choice([0, 1, 1, 2, 3, 6]))]
         pl = [rand_vec(rng) for _ in range(rng.choice([0, 1, 1, 2, 4, 7]))]
+        if rng.random() < 0.3:
+            rc_ = rng.choice(['int-tuple', 'int64-array', 'float32-array', 'whole-float'])
+            origin, xs, pl = in_class(rng, np, origin, rc_), [in_class(rng, np, x, rc_) for x in xs], [in_class(rng, np, x, rc_) for x in pl]
+            ctx.count('class:residual:' + rc_)
         line = 'residual %s %s %s %s' % (fl(params), fl(origin), enc_vecs(xs), enc_vecs(pl))
         cases.append(('residual', line, lambda p=params, o=origin, x=xs, q=pl: real_residual(p, o, x, q),
                       {'op': 'residual', 'nparams': n, 'nx': len(xs), 'nplane': len(pl)}, ('residual', n, len(xs), len(pl), params[0] if params else 0), TOL))
@@ -778,15 +889,36 @@ def gen_cases(ctx):
         cases.append(('align', None, sc, {'op': 'align', 'angle': round(sc['angle_deg'], 2), 'nx': len(sc['xs']), 'nplane': len(sc['pl']), 'nbs': len(sc['bs'])},
                       ('align', sc['angle_deg'], len(sc['xs']), len(sc['pl'])), 1e-9))
 
+    for _ in range(60 * k):           # whole-number / float32 inputs to align
+        sc = scenario_in_class(rng, Pose, np)
+        ctx.count('class:align:' + sc['value_class'])
+        cases.append(('align', None, sc, {'op': 'align', 'angle': round(sc['angle_deg'], 2), 'nx': len(sc['xs']), 'nplane': len(sc['pl']), 'nbs': len(sc['bs']),
+                                          'class': sc['value_class']}, ('align', sc['value_class'], float(sc['origin'][0]), len(sc['xs']), len(sc['pl'])), 1e-9))
+
     # scaler
     for _ in range(200 * k):
-        bs = {i: rand_pose(rng, Pose) for i in rng.sample(range(16), rng.choice([0, 1, 2, 4]))}
-        cf = [rand_pose(rng, Pose) for _ in range(rng.choice([0, 1, 2, 5]))]
+        variety = rng.random() < 0.5      # poses / points from ints, int arrays, float32 arrays, whole floats, mixed scalars
+        vc = set()
+
+        def mkp():
+            if not variety:
+                return rand_pose(rng, Pose)
+            pp, c, rk = rand_pose_in_class(rng, np, Pose)
+            vc.add(c)
+            return pp
+        bs = {i: mkp() for i in rng.sample(range(16), rng.choice([0, 1, 2, 4]))}
+        cf = [mkp() for _ in range(rng.choice([0, 1, 2, 5]))]
         expected = rand_vec(rng) if rng.random() < 0.95 else [0.0, 0.0, 0.0]
-        actual = rand_pose(rng, Pose) if rng.random() < 0.93 else Pose()
+        if variety:
+            expected = in_class(rng, np, expected, rng.choice(VALUE_CLASSES))
+        actual = mkp() if rng.random() < 0.93 else Pose()
         line = 'scalefp %s %s %s %s' % (enc_bs(bs), enc_poses(cf), fl(expected), enc_pose(actual))
+        for c in vc or {'float64'}:
+            ctx.count('class:scalefp:' + c)
+        # ONE tolerance for every value class (float32 arrays are multiplied in float32 by numpy: 6e-8 relative)
         cases.append(('scalefp', line, lambda b=bs, c=cf, e=expected, a=actual: real_scalefp(b, c, e, a),
-                      {'op': 'scalefp', 'nbs': len(bs), 'ncf': len(cf)}, ('scalefp', len(bs), len(cf), expected[0]), TOL))
+                      {'op': 'scalefp', 'nbs': len(bs), 'ncf': len(cf), 'classes': sorted(vc)}, ('scalefp', len(bs), len(cf), float(expected[0])),
+                      1e-6 if variety else TOL))
     for _ in range(200 * k):
         ids = rng.sample(range(8), rng.choice([1, 2, 3]))
         bs = {i: rand_pose(rng, Pose, zmin=1.0) for i in ids}
@@ -831,7 +963,9 @@ def gen_cases(ctx):
     # object graph of _scale_system
     for _ in range(200 * k):
         nm, nv = rng.choice([1, 1, 2, 3]), rng.choice([1, 1, 2, 3, 4])
-        arrs = [None] * nm + [[rng.uniform(-3, 3) for _ in range(3)] for _ in range(nv)]
+        dts = [rng.choice(['float64', 'float64', 'int64', 'int32', 'float32']) for _ in range(nv)]
+        arrs = [None] * nm + [[float(np.float32(rng.uniform(-3, 3))) if dt == 'float32' else (float(rng.randrange(-3, 4)) if dt.startswith('int') else rng.uniform(-3, 3))
+                               for _ in range(3)] for dt in dts]
         no = rng.choice([1, 2, 3, 5])
         objs = [(rng.randrange(nm), nm + rng.randrange(nv)) for _ in range(no)]
         bs = [(i, rng.randrange(no)) for i in rng.sample(range(10), rng.choice([0, 1, 2, 3]))]
@@ -840,8 +974,11 @@ def gen_cases(ctx):
         line = 'heapscale %s %s %s %s %s' % (';'.join('m' if a is None else 'v' + fl(a) for a in arrs), ','.join('%d.%d' % o for o in objs),
                                             ','.join('%d:%d' % b for b in bs) or '-', ','.join(map(str, cf)) or '-', fl([f]))
         shared = len(set(o[1] for o in objs)) < no or len(set(o for _, o in bs) | set(cf)) < len(bs) + len(cf)
-        cases.append(('heapscale', line, lambda a=arrs, o=objs, b=bs, c=cf, ff=f: real_heapscale(a, o, b, c, ff),
-                      {'op': 'heapscale', 'arrays': len(arrs), 'objs': no, 'shared': shared}, ('heapscale', line), 0.0))
+        for dt in set(dts):
+            ctx.count('class:heapscale:' + dt)
+        cases.append(('heapscale', line, lambda a=arrs, o=objs, b=bs, c=cf, ff=f, d=[None] * nm + dts: real_heapscale(a, o, b, c, ff, d),
+                      {'op': 'heapscale', 'arrays': len(arrs), 'objs': no, 'shared': shared, 'dtypes': sorted(set(dts))}, ('heapscale', line),
+                      1e-6 if 'float32' in dts else 0.0))
     return cases
 
 
@@ -976,14 +1113,14 @@ def check_align(ctx, sc, what, tol=1e-6, stats=None, in_domain=True, outcome=Non
         return False
     for k, p in bs.items():
         q = res[k]
-        if np.abs(q.rot_matrix - R @ p.rot_matrix).max() > 1e-9 or np.abs(q.translation - (R @ p.translation + t)).max() > 1e-9:
+        if np.abs(q.rot_matrix - R @ f64(np, p.rot_matrix)).max() > 1e-9 or np.abs(q.translation - (R @ f64(np, p.translation) + t)).max() > 1e-9:
             ctx.witness('align-not-one-map', 'a base station pose is not the returned transformation applied to the input pose', inp, bs_id=k)
     ks = list(bs.keys())
     for i in range(len(ks)):
         for j in range(i + 1, len(ks)):
             a, b, a2, b2 = bs[ks[i]], bs[ks[j]], res[ks[i]], res[ks[j]]
-            d0, d1 = np.linalg.norm(a.translation - b.translation), np.linalg.norm(a2.translation - b2.translation)
-            r0, r1 = a.rot_matrix.T @ b.rot_matrix, a2.rot_matrix.T @ b2.rot_matrix
+            d0, d1 = np.linalg.norm(f64(np, a.translation) - f64(np, b.translation)), np.linalg.norm(a2.translation - b2.translation)
+            r0, r1 = f64(np, a.rot_matrix).T @ f64(np, b.rot_matrix), a2.rot_matrix.T @ b2.rot_matrix
             if abs(d0 - d1) > 1e-9 * max(1.0, d0) or np.abs(r0 - r1).max() > 1e-9:
                 ctx.witness('align-not-rigid', 'distance or relative orientation between two base stations changed', inp, pair=[ks[i], ks[j]])
     # exactness
@@ -1289,41 +1426,63 @@ def check_overlapping_scales(ctx, rng, i):
 
 
 def check_scale(ctx, rng):
+    """scale_fixed_point on poses built from every value class a caller can hand to Pose (ints, int arrays, float32, whole
+    floats, mixed): every translation times the one factor, judged in float64 against the real-number reading with ONE
+    tolerance for all classes (1e-6 relative; 1e-12 when everything is float64)"""
     np, A, S, Pose, LhCfPoseSample, LighthouseBsVector = _mods()
-    bs = {i: rand_pose(rng, Pose) for i in rng.sample(range(16), rng.choice([1, 2, 4]))}
-    cf = [rand_pose(rng, Pose) for _ in range(rng.choice([0, 1, 3]))]
+    variety = rng.random() < 0.6
+    classes = set()
+
+    def mk():
+        if not variety:
+            return rand_pose(rng, Pose)
+        p, c, rk = rand_pose_in_class(rng, np, Pose)
+        classes.add(c)
+        classes.add('R:' + rk)
+        return p
+    bs = {i: mk() for i in rng.sample(range(16), rng.choice([1, 2, 4]))}
+    cf = [mk() for _ in range(rng.choice([0, 1, 3]))]
     if rng.random() < 0.3 and cf:
         cf.append(cf[0])            # the same object twice
     if rng.random() < 0.3 and cf:
         cf.append(copy.copy(cf[0]))   # two objects sharing their arrays
-    expected = np.array(rand_vec(rng))
-    actual = rand_pose(rng, Pose)
-    objs = list(bs.values()) + cf + [actual]
-    snap = [(p, p._R_matrix, p._t_vec, p._R_matrix.copy(), p._t_vec.copy()) for p in objs]
-    keys, cfids, exp0 = list(bs.keys()), [id(p) for p in cf], expected.copy()
-    inp = {'bs': {str(k): enc_pose(p) for k, p in bs.items()}, 'cf': [enc_pose(p) for p in cf], 'expected': expected.tolist(), 'actual': enc_pose(actual)}
+    actual = mk()
+    cf.append(actual)                # the reference pose itself is scaled too: its distance must come out exact
+    expected = np.array(rand_vec(rng)) if not variety else in_class(rng, np, rand_vec(rng), rng.choice(VALUE_CLASSES), nonzero=True)
+    rel = 1e-6 if variety else 1e-12
+    objs = list(bs.values()) + cf
+    snap = [(p, p._R_matrix, p._t_vec, p._R_matrix.copy(), p._t_vec.copy(), p._t_vec.dtype) for p in objs]
+    keys, cfids, exp0 = list(bs.keys()), [id(p) for p in cf], copy.deepcopy(expected)
+    inp = {'value_classes': sorted(classes), 'bs': {str(k): enc_pose(p) for k, p in bs.items()}, 'cf': [enc_pose(p) for p in cf],
+           'translation_dtypes': [str(p._t_vec.dtype) for p in objs], 'expected': [float(v) for v in expected], 'actual': enc_pose(actual)}
     try:
         rb, rc, f = S.scale_fixed_point(bs, cf, expected, actual)
     except Exception as e:
         ctx.witness('scale-raises', 'scale_fixed_point raises on a well-formed input', inp, got=repr(e)[:200])
         return
-    ok_in = list(bs.keys()) == keys and [id(p) for p in cf] == cfids and np.array_equal(exp0, expected) and \
-        all(p._R_matrix is r and p._t_vec is t and np.array_equal(r, rc_) and np.array_equal(t, tc_) for (p, r, t, rc_, tc_) in snap)
+    for c in classes or {'float64'}:
+        ctx.count('search:scale-class:' + c)
+    ok_in = list(bs.keys()) == keys and [id(p) for p in cf] == cfids and np.array_equal(f64(np, exp0), f64(np, expected)) and \
+        all(p._R_matrix is r and p._t_vec is t and np.array_equal(r, rc_) and np.array_equal(t, tc_) and t.dtype == dt for (p, r, t, rc_, tc_, dt) in snap)
     if not ok_in:
         ctx.witness('scale-modifies-inputs', 'scale_fixed_point modified its inputs', inp)
-    want = np.linalg.norm(expected) / np.linalg.norm(actual.translation)
-    if not abs(f - want) <= 1e-12 * want:
+    ne, na = float(np.linalg.norm(f64(np, expected))), float(np.linalg.norm(f64(np, actual.translation)))
+    want = ne / na
+    if not abs(float(f) - want) <= rel * want:
         ctx.witness('scale-factor', 'scale factor is not expected distance / actual distance', inp, got=float(f), want=float(want))
-    if not abs(np.linalg.norm(actual.translation * f) - np.linalg.norm(expected)) <= 1e-12 * max(1.0, np.linalg.norm(expected)):
-        ctx.witness('scale-reference', 'the reference distance is not exact after scaling', inp, factor=float(f))
     if list(rb.keys()) != keys or len(rc) != len(cf):
         ctx.witness('scale-shape', 'scaled system does not have the poses of the input', inp)
         return
+    if not abs(float(np.linalg.norm(f64(np, rc[-1].translation))) - ne) <= rel * max(1.0, ne):
+        ctx.witness('scale-reference', 'the reference distance is not correct after scaling (scaled reference pose is not at the expected distance)',
+                    inp, factor=float(f), got=float(np.linalg.norm(f64(np, rc[-1].translation))), want=ne)
     for p, q in [(bs[k], rb[k]) for k in keys] + list(zip(cf, rc)):
         if not np.array_equal(q.rot_matrix, p.rot_matrix):
             ctx.witness('scale-rotation', 'scaling changed a rotation', inp)
-        if np.abs(q.translation - p.translation * f).max() > 1e-12 * max(1.0, np.abs(p.translation * f).max()):
-            ctx.witness('scale-not-uniform', 'a translation was not multiplied by the common factor', inp, factor=float(f))
+        wt = f64(np, p.translation) * want
+        if np.abs(f64(np, q.translation) - wt).max() > rel * max(1.0, np.abs(wt).max()):
+            ctx.witness('scale-not-uniform', 'a translation was not multiplied by the common factor', inp, factor=float(f),
+                        translation=[float(v) for v in p.translation], dtype=str(p._t_vec.dtype), got=[float(v) for v in q.translation], want=wt.tolist())
 
 
 def check_scale_diagonals(ctx, rng):
@@ -1334,31 +1493,45 @@ def check_scale_diagonals(ctx, rng):
     L, W = sensors[2][0] - sensors[0][0], sensors[0][1] - sensors[1][1]
     true_diag = float(math.sqrt(L * L + W * W))       # distance between opposite corners of the sensor rectangle
     ids = rng.sample(range(8), rng.choice([1, 2, 3]))
-    bs = {}
+    s = rng.uniform(0.3, 3.0)
+    cls = 'float64' if rng.random() < 0.5 else rng.choice([c for c in VALUE_CLASSES if c != 'mixed'])
+    if cls.startswith('int') or cls == 'whole-float':
+        s = rng.uniform(1.5, 4.0)          # whole-number coordinates of the GIVEN system: keep the true system room-sized
+    ctx.count('search:scale-diag-class:' + cls)
+    f32 = cls == 'float32-array'
+    # the GIVEN (mis-scaled) system is what the caller holds, in its value class; the true system is given / s
+    bs, bs_s = {}, {}
     for i in ids:     # base station up high, looking roughly at the origin region
-        pos = np.array([rng.uniform(-2, 2), rng.uniform(-2, 2), rng.uniform(1.5, 3.0)])
+        while True:
+            pos = np.array([rng.uniform(-2, 2), rng.uniform(-2, 2), rng.uniform(1.5, 3.0)])
+            given = in_class(rng, np, pos * s, cls)
+            pos = f64(np, given) / s
+            if np.linalg.norm(np.cross([0.0, 0.0, 1.0], pos)) > 0.2 and pos[2] > 0.5:
+                break
         x = -pos / np.linalg.norm(pos)
         up = np.array([0.0, 0.0, 1.0])
         y = np.cross(up, x)
         y /= np.linalg.norm(y)
         z = np.cross(x, y)
         bs[i] = Pose(R_matrix=np.array([x, y, z]).T, t_vec=pos)
-    cf = [Pose.from_rot_vec(R_vec=[rng.uniform(-0.3, 0.3), rng.uniform(-0.3, 0.3), rng.uniform(-3, 3)],
-                            t_vec=[rng.uniform(-0.7, 0.7), rng.uniform(-0.7, 0.7), rng.uniform(0.0, 0.5)]) for _ in range(rng.choice([1, 2, 4]))]
+        bs_s[i] = Pose(R_matrix=np.array([x, y, z]).T, t_vec=given)
+    cf, cf_s = [], []
+    for _ in range(rng.choice([1, 2, 4])):
+        rv = [rng.uniform(-0.3, 0.3), rng.uniform(-0.3, 0.3), rng.uniform(-3, 3)]
+        given = in_class(rng, np, np.array([rng.uniform(-0.7, 0.7), rng.uniform(-0.7, 0.7), rng.uniform(0.0, 0.5)]) * s, cls)
+        c = Pose.from_rot_vec(R_vec=rv, t_vec=f64(np, given) / s)
+        cf.append(c)
+        cf_s.append(Pose(R_matrix=c.rot_matrix, t_vec=given))
     samples = []
     for c in cf:
         ang = {}
         for i in (ids if rng.random() < 0.7 else ids[:1]):
             ang[i] = [LighthouseBsVector.from_cart(bs[i].inv_rotate_translate(c.rotate_translate(s_))) for s_ in sensors]
         samples.append(LhCfPoseSample(angles_calibrated=ang))
-    s = rng.uniform(0.3, 3.0)
-
-    def scaled(p):
-        return Pose(R_matrix=p.rot_matrix, t_vec=p.translation * s)
-    bs_s, cf_s = {k: scaled(p) for k, p in bs.items()}, [scaled(p) for p in cf]
     objs = list(bs_s.values()) + cf_s
     snap = [(p, p._R_matrix, p._t_vec, p._R_matrix.copy(), p._t_vec.copy()) for p in objs]
-    inp = {'bs': {str(k): enc_pose(p) for k, p in bs_s.items()}, 'cf': [enc_pose(p) for p in cf_s], 'true_diagonal': true_diag, 'system_scale': s}
+    inp = {'value_class': cls, 'bs': {str(k): enc_pose(p) for k, p in bs_s.items()}, 'cf': [enc_pose(p) for p in cf_s], 'true_diagonal': true_diag, 'system_scale': s,
+           'translation_dtypes': [str(p._t_vec.dtype) for p in objs]}
     try:
         rb, rc, f = S.scale_diagonals(bs_s, cf_s, samples, true_diag)
         after = float(S._calculate_mean_diagonal(rb, rc, samples))
@@ -1369,11 +1542,13 @@ def check_scale_diagonals(ctx, rng):
         ctx.witness('scale-modifies-inputs', 'scale_diagonals modified its inputs', inp)
     if abs(f * s - 1.0) > 1e-4:
         ctx.witness('scale-diag-factor', 'scale_diagonals does not recover the factor that makes the sensor diagonal correct', inp, got=float(f), want=1.0 / s)
-    if abs(after - true_diag) > 1e-9 * max(1.0, true_diag) + 1e-12:
+    if abs(after - true_diag) > (1e-4 * true_diag if f32 else 1e-9 * max(1.0, true_diag) + 1e-12):
         ctx.witness('scale-diag-reference', 'mean sensor diagonal of the scaled system is not the expected diagonal', inp, got=after, want=true_diag)
     for p, q in [(bs_s[k], rb[k]) for k in bs_s] + list(zip(cf_s, rc)):
-        if not np.array_equal(q.rot_matrix, p.rot_matrix) or np.abs(q.translation - p.translation * f).max() > 1e-12 * max(1.0, np.abs(p.translation * f).max()):
-            ctx.witness('scale-not-uniform', 'scale_diagonals: a pose was not scaled by the common factor with its rotation kept', inp)
+        wt = f64(np, p.translation) * float(f)
+        if not np.array_equal(q.rot_matrix, p.rot_matrix) or np.abs(f64(np, q.translation) - wt).max() > (1e-6 if f32 else 1e-12) * max(1.0, np.abs(wt).max()):
+            ctx.witness('scale-not-uniform', 'scale_diagonals: a pose was not scaled by the common factor with its rotation kept', inp,
+                        translation=[float(v) for v in p.translation], dtype=str(p._t_vec.dtype), got=[float(v) for v in q.translation], want=wt.tolist())
     # intersection point lies on the deck plane and on the ray
     for c, smp in zip(cf_s, samples):
         for i, vs in smp.angles_calibrated.items():
@@ -1383,7 +1558,7 @@ def check_scale_diagonals(ctx, rng):
                 dirv = bs_s[i].rot_matrix @ v.cart
                 off_plane = abs(np.dot(pt - c.translation, n))
                 off_ray = np.linalg.norm(np.cross(pt - bs_s[i].translation, dirv))
-                if off_plane > 1e-9 or off_ray > 1e-6 or np.dot(pt - bs_s[i].translation, dirv) < 0:
+                if off_plane > (1e-5 if f32 else 1e-9) or off_ray > (1e-5 if f32 else 1e-6) or np.dot(pt - bs_s[i].translation, dirv) < 0:
                     ctx.witness('intersection', 'calc_intersection_point is not on the deck plane and the ray', inp, off_plane=float(off_plane), off_ray=float(off_ray))
 
 
@@ -1440,6 +1615,11 @@ def search(ctx):
         check_align(ctx, sc, 'random out-of-domain scenario %d' % i, stats=stats, in_domain=False)
     ctx.count('search:ood-converged', stats.get('ood-converged', 0))
     ctx.count('search:ood-unconverged', stats.get('ood-unconverged', 0))
+    # (1a') reference samples / base stations handed over as ints, int arrays, whole floats, float32 arrays
+    for i in range(120 if ctx.tier == 'quick' else 1200):
+        sc = scenario_in_class(rng, Pose, np)
+        ctx.count('search:align-class:' + sc['value_class'])
+        check_align(ctx, sc, 'in-domain scenario %d with %s inputs' % (i, sc['value_class']), stats=stats)
     # (1c) several calls in flight: the operations must not communicate through shared state
     for i in range(40 if ctx.tier == 'quick' else 400):
         check_overlapping_aligns(ctx, rng, i, stats)
